@@ -141,6 +141,9 @@ func GetWorld(scheme string, n int) *World {
 		rep[i] = Entry{Claimed: 1, Key: 1, Blk: 3}
 	}
 	w.Pool[PoolRepeated] = hotstuff.NewQuorumCert(w.buildSig(rep, func(e Entry) []byte { return w.Blocks[3].ToBytes() }), 5, w.Blocks[3].Hash())
+	if w.Q == 1 {
+		w.Pool[PoolRepeated] = w.Pool[PoolB3] // "repeated q times" with q == 1 is the honest certificate itself
+	}
 	w.Pool[PoolGenesisV7] = hotstuff.NewQuorumCert(nil, 7, g.Hash())
 	w.Pool[PoolNilSig] = hotstuff.NewQuorumCert(nil, 5, w.Blocks[3].Hash())
 	w.Pool[PoolB3Relabel] = hotstuff.NewQuorumCert(relabelSig(w, w.Pool[PoolB3].Signature(), false), 5, w.Blocks[3].Hash())
@@ -376,7 +379,11 @@ func (w *World) Build(s Spec) (b Built, err error) {
 		// Validity is decided on CONTENT (which replica's message, which view, which certificate object), not on byte
 		// equality of encodings: two different certificates must not be interchangeable inside a signed timeout message.
 		canon := func(id int, view uint64, qc int) []byte {
-			return []byte(fmt.Sprintf("timeout|%d|%d|%d", id, view, ((qc%PoolSize)+PoolSize)%PoolSize))
+			p := ((qc % PoolSize) + PoolSize) % PoolSize
+			if p == PoolRepeated && w.Q == 1 {
+				p = PoolB3 // with a quorum of one, "the signer repeated q times" IS the honest certificate (same block, view, signer)
+			}
+			return []byte(fmt.Sprintf("timeout|%d|%d|%d", id, view, p))
 		}
 		msgOf = func(e Entry) []byte { return w.timeoutBytes(e.SID, e.View, e.SQC) }
 		contentOf = func(e Entry) []byte { return canon(e.SID, e.View, e.SQC) }
